@@ -36,11 +36,18 @@ def gen_case(seed, tier, index=0):
         e2.add_second_loop(rr, prog)
         prog['second']['k'] = rr.choice([0, 1, 2, 3, 10, 11])
         prog['reloads'] = []
+    restart_stage = None
+    if rr.random() < 0.3:
+        # the stage the second loop (or the only one) is imported in, or the one after the first loop
+        cands = [lp['import_stage'] for lp in e2.loops_of(prog) if lp['import_stage'] > 0]
+        cands += [prog['import_stage'] + e2.span_of(prog) + 1]
+        restart_stage = rr.choice(cands)
     knobs = common.knobs_from(rr, tier)
     knobs['launch_delay'] = rr.choice([0.0, 0.0, 5.0])
     dur = rr.choice([0.3, 1.0, 3.0])
     plan = {'default_dur': dur}
-    return {'prog': prog, 'knobs': knobs, 'plan': {}, 'dur': dur, 'sched_seed': rr.getrandbits(48)}
+    return {'prog': prog, 'knobs': knobs, 'plan': {}, 'dur': dur, 'sched_seed': rr.getrandbits(48),
+            'restart_stage': restart_stage}
 
 
 def shrink_candidates(case):
@@ -140,7 +147,22 @@ def run_case(case, schedule, opts):
         ctx.exp = exp
         controller, comps = R.new_controller(exp)
         ctx.controller = controller
-        R.run_stages(exp, controller, REC, outcomes)
+        rs = case.get('restart_stage')
+        if rs is None or rs <= 0 or rs >= len(exp._stages):
+            R.run_stages(exp, controller, REC, outcomes)
+        else:
+            # crash + restart from a stage: the process dies after stage rs-1 completed; a new process loads the
+            # instance directory and a new controller starts from stage rs (elaunch --restart <rs>)
+            R.run_stages(exp, controller, REC, outcomes, last=rs - 1)
+            if all(o['result'] == 'ok' for o in outcomes):
+                inst = exp.instanceDirectory.location
+                del controller, comps
+                exp = e2.reload_instance(inst)
+                ctx.exp = exp
+                REC.count('fault.crash_and_restart_from_stage')
+                controller, comps = R.new_controller(exp, initial_stage=rs)
+                ctx.controller = controller
+                R.run_stages(exp, controller, REC, outcomes, first=rs)
     except simk.SimStop as e:
         stop = e.reason
     K.freeze()
